@@ -177,3 +177,13 @@ package events
 //@   loop 1: each nsends() + ncalls(events.EventStreaming.removeEventStream) == iter(nsends() + ncalls(events.EventStreaming.removeEventStream)) + 1
 //@   at[own] send chan#1: assert arg0 == details.local && arg1 == event
 //@   at[evicted] call events.EventStreaming.removeEventStream#1: assert arg0 == e && arg1 == consumer
+
+// a new subscriber is registered for live events BEFORE the history is read, so that an event recorded in between is in
+// the history or on the live channel (never in neither)
+//@ func (e *EventStreaming) CreateEventStream(name string, count uint64) (stream *EventStream)
+//@   props C20
+//@   sweep
+//@   mode nopanic=off
+//@   holds e != nil && e.buffer != nil && inv(e.buffer)
+//@   at[registeredfirst] call events.eventRingBuffer.GetRecentEvents#1: assert ncalls(events.EventStreaming.createEventStreamInternal) == 1 && arg1 == count
+//@   at[registers] call events.EventStreaming.createEventStreamInternal#1: assert arg0 == e && arg1 == stream && arg2 == local && arg3 == consumer
